@@ -329,7 +329,68 @@ def gen_cases(seed, count, max_ops):
     out += [gen_par_case(prng.fork(), 5) for _ in range(npar - npar // 3)]
     out += [["%reg 16"] + gen_par_case(prng.fork(), 16) for _ in range(npar // 3 - npar // 8)]
     tail9 += [["%reg 9"] + gen_par_case(r9.fork(), 9) for _ in range(max(1, npar // 8))]
-    return out + tail9
+    # copies given the same operations (C06, C10: same identifiers issued)
+    mrng = SplitMix(seed * 23 + 11)
+    nm = max(6, count // 12)
+    mir = [gen_mirror_case(mrng.fork(), 5) for _ in range(nm - nm // 3)]
+    mir += [["%reg 16"] + gen_mirror_case(mrng.fork(), 16) for _ in range(nm // 6)]
+    mir += [["%reg 9"] + gen_mirror_case(mrng.fork(), 9) for _ in range(nm // 3 - nm // 6)]
+    # registries are not mixed inside a shard: 5-component cases first, then 16, then 9
+    r5 = [c for c in out + tail9 + mir if case_reg(c) == 5]
+    r16 = [c for c in out + tail9 + mir if case_reg(c) == 16]
+    r9 = [c for c in out + tail9 + mir if case_reg(c) == 9]
+    return r5 + r16 + r9
+
+
+def gen_mirror_case(rng, ncomp=5):
+    """C06 / C10 "from then on behaves identically": a world, its clone and its serde round trip are given the SAME
+    operations (`mrk 3` then the operation on each of the three); after every such group the three must have
+    answered alike (same identifiers issued) and look alike (content, slots, free list)."""
+    tok = [7000]
+
+    def fresh():
+        tok[0] += 1
+        return tok[0]
+    pal = ([rng.below(32) for _ in range(4)] + [0]) if ncomp == 5 else [rng.choice(PALETTES[ncomp]) for _ in range(4)]
+    pal = [m for m in pal if m or rng.chance(1, 2)] or [1]
+    lines = ["new 0 %d %d %d %d" % (fresh(), fresh(), fresh(), fresh())]
+    n = 0
+
+    def ins(ws, m, vals=None):
+        cs = [k for k in range(ncomp) if m >> k & 1]
+        vals = vals or [fresh() for _ in cs]
+        return "ins %d 0 %d %s" % (ws, len(cs), " ".join("%d %d" % (c, v) for c, v in zip(cs, vals))), vals
+    for _ in range(rng.choice([4, 6, 8, 10])):
+        if n and rng.chance(1, 5):
+            lines.append("rem 0 #%d" % rng.below(n))
+        else:
+            lines.append(ins(0, rng.choice(pal))[0])
+            n += 1
+    lines.append("cln 0 1")
+    lines.append("srd %d 0 2" % rng.below(2))
+    for _ in range(rng.choice([3, 5, 7, 9])):
+        kind = rng.weighted([("clr", 3), ("ins", 6), ("rem", 4), ("shr", 1), ("ext", 2)])
+        lines.append("mrk 3")
+        if kind == "clr":
+            lines += ["clr %d" % ws for ws in range(3)]
+        elif kind == "shr":
+            lines += ["shr %d" % ws for ws in range(3)]
+        elif kind == "rem" and n:
+            k = rng.below(n)
+            lines += ["rem %d #%d" % (ws, k) for ws in range(3)]
+        elif kind == "ext":
+            m = rng.choice([x for x in pal if x] or [1])
+            cs = [k for k in range(ncomp) if m >> k & 1]
+            rows = rng.choice([1, 2, 3])
+            vals = [fresh() for _ in range(rows * len(cs))]
+            lines += ["ext %d 0 %d %s %d %s" % (ws, len(cs), " ".join(map(str, cs)), rows, " ".join(map(str, vals))) for ws in range(3)]
+            n += 3 * rows
+        else:
+            m = rng.choice(pal)
+            l0, vals = ins(0, m)
+            lines += [l0, ins(1, m, vals)[0], ins(2, m, vals)[0]]
+            n += 3
+    return lines
 
 
 FAULT_SHAPES = {5: [0b01101, 0b11111, 0b01001, 0b10100, 0b00101, 0b01111, 0b11000],
@@ -995,6 +1056,8 @@ class RefWorlds:
         if ret == "panic" and k != "xrg":
             fails.append(("C01", "operation panicked: " + step["op"]))
             return fails, known
+        if k == "mrk":
+            return fails, known
         if k == "new":
             ws = int(t[1])
             self.maps[ws] = {}
@@ -1278,9 +1341,34 @@ def oracle_case(impl_case):
     prev_lines = {}
     prev_live = {}
     de_worlds = set()      # worlds whose content came out of the deserializer from mutated input (or were copied from one)
+    mirror = None          # (index of the `mrk` step, number of copies)
     for i, st in enumerate(impl_case["steps"]):
         t = st["op"].split()
         k = t[0]
+        if k == "mrk":
+            mirror = (i, int(t[1]))
+        elif mirror is not None and i == mirror[0] + mirror[1]:
+            # the same operation was applied to copies of one world: they must have answered alike and look alike
+            grp = impl_case["steps"][mirror[0] + 1:i + 1]
+            wss = [int(g["op"].split()[1]) for g in grp]
+            rets = [g["ret"] for g in grp]
+            names = {0: "the original", 1: "its clone", 2: "its serde round trip"}
+            for j_, ws_ in enumerate(wss[1:], 1):
+                prop_ = "C06" if ws_ == 2 else "C10"
+                if rets[j_] != rets[0]:
+                    fails.append((i, prop_, "the same operation `%s` answered %r on %s and %r on %s" % (
+                        " ".join(grp[0]["op"].split()[:1]), rets[0], names.get(wss[0], wss[0]), rets[j_], names.get(ws_, ws_))))
+                    continue
+                wa, wb = st["worlds"].get(wss[0]), st["worlds"].get(ws_)
+                if wa is None or wb is None:
+                    continue
+                if world_map(wa)[0] != world_map(wb)[0]:
+                    fails.append((i, prop_, "after the same operations %s and %s hold different entities" % (names.get(wss[0]), names.get(ws_))))
+                elif [x[0] for x in wa["slots"]] != [x[0] for x in wb["slots"]] or wa["free"] != wb["free"]:
+                    fails.append((i, prop_, "after the same operations (last: `%s`) %s and %s will not issue the same identifiers: "
+                                  "free lists %s vs %s, generations %s vs %s" % (grp[0]["op"].split()[0], names.get(wss[0]), names.get(ws_),
+                                  wa["free"], wb["free"], [x[0] for x in wa["slots"]], [x[0] for x in wb["slots"]])))
+            mirror = None
         n_before = len(fails)
         de_before = set(de_worlds)
         try:
@@ -1288,8 +1376,12 @@ def oracle_case(impl_case):
                 (de_worlds.add if (st["ret"] or "") == "ok" else de_worlds.discard)(int(t[1]))
             elif k in ("new", "drop"):
                 de_worlds.discard(int(t[1]))
-            elif k in ("mde", "tde", "srd"):
-                de_worlds.discard(int(t[2]) if len(t) > 2 and k != "tde" else int(t[1]))
+            elif k == "mde":
+                de_worlds.discard(int(t[2]))
+            elif k == "tde":
+                de_worlds.discard(int(t[2]) if len(t) > 4 else int(t[1]))
+            elif k == "srd":
+                (de_worlds.add if int(t[2]) in de_worlds else de_worlds.discard)(int(t[3]))
             elif k == "cln":
                 (de_worlds.add if int(t[1]) in de_worlds else de_worlds.discard)(int(t[2]))
             elif k == "clf":
